@@ -8,7 +8,7 @@ def run(ck):
     ck.cov["rule"] = ("timed: (now.sec, now.nsec, seconds, nanoseconds) from a boundary set cubed plus seeded random tuples, clock ok/failing, "
                       "kernel outcome scripts up to length 5 over {ok, EINTR, EAGAIN, ETIMEDOUT, EINVAL}; wait/try: all outcome scripts up to length 4; "
                       "compared: status, number of kernel calls, the abstime handed to sem_timedwait; non-trivial = distinct script with a carry or an EINTR")
-    ck.assumptions += ["kernel semaphore, clock and signal delivery are modelled (oracle of call results; abstract counter), not verified",
+    ck.assumptions += ["kernel semaphore, clock and signal delivery are modelled (oracle of call results; abstract counter), not verified; the real-thread stress run (posters/waiters/signals, try-wait count, timeouts never early) samples schedules of this machine only",
                        "a failing system call sets errno to a non-zero value (POSIX)", "time_t does not overflow (64-bit)"]
     try:
         ck.write_generated("Errno.lean", gen_errno.generate(REPO, ck.work))
@@ -52,3 +52,18 @@ def run(ck):
     if h: hist.append(h)
     ck.sample(hist[0][100:103]); ck.sample(hist[1][7:10]); ck.sample(hist[2][:2])
     ck.kcompare("k", exe, "c17", hist, keep_head=0, what="zix_sem_* differ from the model under scripted kernel results")
+    # real kernel semaphore, real threads, real signals (support for the abstract counter theorems, not a proof)
+    exe2 = ck.cc("h_c17s", ["h_c17s.c", os.path.join(REPO, "src/posix/sem_posix.c"), os.path.join(REPO, "src/errno_status.c")], libs=["-lpthread"], san=False)
+    if not exe2: return
+    q = ck.tier == "quick"
+    st = []
+    for (ini, np_, nw, units) in [(0, 1, 1, 20000), (0, 4, 4, 5000), (3, 2, 7, 702), (0, 8, 2, 1000), (5, 3, 5, 1000), (1, 16, 1, 500)] + ([] if q else [(0, 32, 32, 20000), (7, 13, 3, 3002), (0, 64, 64, 2000)]):
+        assert (ini + np_ * units) % nw == 0
+        for sig in (0, 1):
+            st.append("stress %d %d %d %d %d %d" % (ini, np_, nw, units, sig, ck.seed + len(st)))
+    st += ["trycount 0", "trycount 1", "trycount 5", "trycount 1000"]
+    st += ["timeout 0 30000000 0", "timeout 0 30000000 1", "timeout 0 1020000000 1", "timeout 0 2000000001 1", "timeout 1 999999999 0"]
+    if not q: st += ["timeout 0 4294967295 1", "timeout 2 3000000000 0"]
+    for l in st: ck.hist("real-" + l.split()[0])
+    ck.sample(st[:2])
+    ck.kcompare("s", exe2, "c17", [st], keep_head=0, timeout=600, corpus_prefix="real", what="the real semaphore under threads and signals does not behave as the abstract counter predicts")
